@@ -25,12 +25,14 @@ func init() {
 		Rule: "case = one correctly issued document (DG1 + random data groups + EF.SOD, optionally CardSecurity) over the issuing-profile matrix: CSCA key x DS key (RSA-2048/3072/4096 with PKCS#1 v1.5 or PSS; ECDSA on the 11 curves, named or explicit parameters) x digest SHA-1..512 x signer identifier (issuer+serial / subject key identifier) x LDS security object version x signing time (absent, strictly inside, equal to notBefore, equal to notAfter of DS / CSCA) x encoding (DER; BER with indefinite lengths on a random subset of CMS containers) x harmless variations (SID issuer with other attribute order / string type / letter case, extra embedded certificates, same-SKI anchor whose signature check fails placed first, several countries in the store), judged by passiveauth.PassiveAuth; " +
 			"plus (berlevel cases) the same documents with the indefinite form on an explicitly chosen set of the 17 constructed levels of the EF.SOD SignedData (every level alone, encoder-like combinations with and without the outermost SEQUENCE, random subsets of every density, two thirds with a definite outermost SEQUENCE) and a DER CardSecurity next to it; " +
 			"plus (rotation cases) EF.CardSecurity signed by another document signer (optionally below a second CSCA) at its own signing time, that signer's window lying after / before / apart from the SOD's signing time and vice versa, each object inside its own signer's window, signing-time attribute present or absent on either object, judged by PassiveAuth and by SignedData.Verify on each object alone; " +
+			"plus (names cases) documents whose signer certificate's issuer name repeats attribute types (two / three OU, two O, two CN, three DC, OU values that are prefixes of each other, equal and equal-after-case-folding values), holds a multi-valued RDN or 8-10 attributes, the issuerAndSerialNumber signer identifier listing the same RDNs reversed / rotated / shuffled / with one same-type pair exchanged and/or in another string type, letter case, whitespace, next to 0-3 further embedded certificates (document signer of another authority of the country, the CSCA certificate, a sibling with another serial, the signer's serial under another issuer whose name is unrelated or a near miss), EF.CardSecurity of the same signer in a third of them, judged by SignedData.Verify on each object and PassiveAuth; " +
 			"oracle: success; non-trivial = every document; distinct = the profile tuple",
 		MinEvaluations: 250,
 		Assumptions: []string{
 			"RSA keys >= 2048 bits; PSS with MGF1 over the message hash and explicit parameters; the outer 0x77 length is definite; embedded certificates stay DER (their signatures cover the encoding); extra certificates belong to the same country",
 			"certificate validity is judged at the signing-time attribute of the generated object, never at the wall clock",
 			"berlevel cases demand acceptance only when the signed attributes stay DER (RFC 5652 5.3), the eContent OCTET STRING is primitive and at least one indefinite level is one the first encoding/asn1 pass reads (the library documents the normalisation as a retry after a failed first parse); objects outside that class (indefinite form only inside the raw-captured issuer Name of the SID, BER signed attributes, constructed eContent, BER CardSecurity) are generated and counted in observe_only counters, never judged",
+			"names cases: every generated name holds exactly one countryName attribute; every embedded certificate is of the same country; a harness-side reference comparison (sorted multiset of type and case-folded, whitespace-collapsed value; no library code) confirms before the library is called that exactly one embedded certificate has the identified issuer and serial and exactly one the signer's key identifier; members of a multi-valued RDN are emitted in DER order; the signer key differs from the CSCA key",
 			"rotation cases: an object without signing-time attribute is not judged for validity (cms.resolveSigningTime documents this), so it is genuine whatever its signer's window",
 		},
 		Run: runC09,
@@ -381,4 +383,8 @@ func runC09(c *fw.Ctx) {
 	// EF.CardSecurity with its own signer / signing time / validity window (c09_rotation.go)
 	nr := c.Pick(128, 6400)
 	c.Cases(nr, func(i int) string { return fmt.Sprintf("rotation|i=%d %s", i, c09RotPlanOf(i)) }, func(i int, k *fw.K) { c09RotationCase(k, i) })
+	// issuer names with repeated attribute types / multi-valued RDNs / many attributes, spelt
+	// in another order in the signer identifier, next to further embedded certificates (c09_names.go)
+	nn := c.Pick(280, 8400)
+	c.Cases(nn, func(i int) string { return fmt.Sprintf("names|i=%d %s", i, c09NamePlanOf(i)) }, func(i int, k *fw.K) { c09NamesCase(k, i) })
 }
